@@ -1,8 +1,9 @@
 CONSTANTS
  Copies = {"c1", "c2"}
  Confs <- ShapeConfs
- MaxCloses = 3
+ MaxCloses = 4
  MaxOps = 2
+ Eager = FALSE
 INIT GInit
 NEXT GNext
 INVARIANTS Emit
